@@ -65,3 +65,38 @@ func FuzzRapid[C any](f *testing.F, draw func(*rapid.T) C, check func(C) *Findin
 		FuzzVerdict(t, known, Guard("fuzz-panic", func() *Finding { return check(c) }))
 	}))
 }
+
+// capture is switched on while FuzzUnit runs a unit's test function to collect
+// the (draw, check) pairs it hands to vk.Rapid; nothing is evaluated, reported or
+// written in that mode.
+var capture struct {
+	on    bool
+	props []func(*rapid.T) *Finding
+}
+
+// FuzzUnit makes the index-th vk.Rapid property of a unit (its generator and its
+// oracle, unchanged) the body of a native fuzz target: the unit's test function is
+// run once in capture mode, so everything it sets up before vk.Rapid (corpora,
+// tables) is in place, and the fuzzer's bytes become rapid's source of choices.
+func FuzzUnit(f *testing.F, test func(*testing.T), index int) {
+	known := FuzzStart(f)
+	capture.on = true
+	capture.props = nil
+	done := make(chan any, 1)
+	go func() {
+		defer func() { done <- recover() }()
+		test(&testing.T{})
+	}()
+	r := <-done
+	capture.on = false
+	if r != nil {
+		f.Fatalf("unit set-up panicked in capture mode: %v", r)
+	}
+	if index >= len(capture.props) {
+		f.Fatalf("unit handed %d properties to vk.Rapid, target wants number %d", len(capture.props), index)
+	}
+	prop := capture.props[index]
+	f.Fuzz(rapid.MakeFuzz(func(t *rapid.T) {
+		FuzzVerdict(t, known, prop(t))
+	}))
+}
